@@ -46,12 +46,15 @@ type C06Case struct {
 	// RaceAt[i] = k > 0: append i is not made between two read rounds but DURING round i, when the
 	// worker has just done its k-th read of that round (after the round if it needs fewer reads); the
 	// job is then resumed through maintenanceJob. 0 / missing = between the rounds.
-	RaceAt []int  `json:"race_at,omitempty"`
-	Buf    int    `json:"buf"`    // read_buffer_size >= 1
-	Max    int    `json:"max"`    // max_event_size, 0 = unlimited
-	CutOff bool   `json:"cutoff"` // cut_off_event_by_limit
-	Mode   string `json:"mode"`   // offsets_op: reset | tail | continue
-	Start  int    `json:"start"`  // continue: saved offset (a line start <= Splits[0])
+	RaceAt []int `json:"race_at,omitempty"`
+	// DupNotify[i]: after the round that follows append i the same write notification arrives once more
+	// (inotify reports a write for every write call; nothing new is in the file)
+	DupNotify []bool `json:"dup_notify,omitempty"`
+	Buf       int    `json:"buf"`    // read_buffer_size >= 1
+	Max       int    `json:"max"`    // max_event_size, 0 = unlimited
+	CutOff    bool   `json:"cutoff"` // cut_off_event_by_limit
+	Mode      string `json:"mode"`   // offsets_op: reset | tail | continue
+	Start     int    `json:"start"`  // continue: saved offset (a line start <= Splits[0])
 	// metamorphic twin: same content / limits / start, other buffer and append schedule
 	AltBuf    int   `json:"alt_buf,omitempty"`
 	AltSplits []int `json:"alt_splits,omitempty"`
@@ -167,14 +170,15 @@ func c06WaitDone(job *Job, workerDone chan struct{}) string {
 }
 
 type c06Result struct {
-	raced    int // appends made during a read round
-	calls    []c06Call
-	reopened int
-	fail     *vkit.SigError
+	dupNotified int // write notifications without new data
+	raced       int // appends made during a read round
+	calls       []c06Call
+	reopened    int
+	fail        *vkit.SigError
 }
 
 // c06Execute plays one (buffer, append schedule) over the case's content with real code.
-func c06Execute(c *C06Case, buf int, splits, resume, raceAt []int) (res c06Result) {
+func c06Execute(c *C06Case, buf int, splits, resume, raceAt []int, dupNotify []bool) (res c06Result) {
 	verifSetup()
 	dir := verifTempDir("vc06-")
 	defer os.RemoveAll(dir)
@@ -360,6 +364,18 @@ func c06Execute(c *C06Case, buf int, splits, resume, raceAt []int) (res c06Resul
 		}
 		if started && roundFailed(c06WaitDone(job, workerDone)) {
 			return res
+		}
+		if i < len(dupNotify) && dupNotify[i] {
+			st, err := os.Stat(path)
+			if err != nil {
+				verifInfra("stat: %v", err)
+			}
+			jp.refreshFile(st, path, "", true)
+			res.dupNotified++
+			// whether the notification resumes the job is the implementation's business; wait if it did
+			if roundFailed(c06WaitDone(job, workerDone)) {
+				return res
+			}
 		}
 	}
 	return res
@@ -644,7 +660,7 @@ func runC06(c C06Case) *vkit.Outcome {
 	o.Class("mode=" + c.Mode)
 	o.Class("limit=" + lm)
 
-	r := c06Execute(&c, c.Buf, c.Splits, c.Resume, c.RaceAt)
+	r := c06Execute(&c, c.Buf, c.Splits, c.Resume, c.RaceAt, c.DupNotify)
 	describe := func(buf int, splits, resume []int) string {
 		return fmt.Sprintf("content %q (len %d) splits %v resume %v read_buffer_size %d max_event_size %d cut_off %v offsets_op %s start %d",
 			c.Content, len(c.Content), splits, resume, buf, c.Max, c.CutOff, c.Mode, c.Start)
@@ -661,13 +677,16 @@ func runC06(c C06Case) *vkit.Outcome {
 	if r.raced > 0 {
 		o.Class("append-during-a-read-round")
 	}
+	if r.dupNotified > 0 {
+		o.Class("write-notification-without-new-data")
+	}
 	if r.reopened > 0 {
 		o.Class("descriptor-reopened-between-rounds")
 	}
 
 	if c.AltBuf > 0 {
 		o.Class("metamorphic-twin")
-		r2 := c06Execute(&c, c.AltBuf, c.AltSplits, c.AltResume, nil)
+		r2 := c06Execute(&c, c.AltBuf, c.AltSplits, c.AltResume, nil, nil)
 		if r2.fail != nil {
 			o.Failf(pC06, r2.fail.Sig, "%v\n%s", r2.fail.Err, describe(c.AltBuf, c.AltSplits, c.AltResume))
 			return o
@@ -809,6 +828,11 @@ func genC06(t *rapid.T) C06Case {
 	ns := rapid.IntRange(1, 4).Draw(t, "nsplits")
 	c.Splits = c06GenSplits(t, "split", 0, L, ns)
 	c.Resume = c06GenResume(t, "resume", ns)
+	if rapid.IntRange(0, 2).Draw(t, "dups") == 0 {
+		for i := 0; i < ns; i++ {
+			c.DupNotify = append(c.DupNotify, rapid.Bool().Draw(t, "dup_notify"))
+		}
+	}
 	if rapid.IntRange(0, 2).Draw(t, "races") == 0 {
 		for i := 0; i < ns; i++ {
 			k := 0
